@@ -58,6 +58,7 @@ def main():
                         "first_witness": first[:300], "caught": rc == 1 and len(viol) > 0, "wall_s": round(time.time() - t, 1)}
         print(sid, "CAUGHT" if results[sid]["caught"] else f"MISSED rc={rc}", rules[:3], flush=True)
         json.dump(results, open(SEEDED + f"/RESULTS{SUFFIX}.json", "w"), indent=1)
+    json.dump(results, open(SEEDED + f"/RESULTS{SUFFIX}.json", "w"), indent=1)
     with open(SEEDED + f"/RESULTS{SUFFIX}.md", "w") as f:
         f.write("# Seeded changes versus the quick checks\n\nEach change is applied to /repo, the quick check of its property is run, the change is undone.\n\n| id | property | caught | rules that fired | first witness |\n|---|---|---|---|---|\n")
         for sid in sorted(results):
